@@ -339,3 +339,95 @@ func VTV_PingPongSpin() {
 	vf.Reach("released")
 	vf.Assert(served == 2, "spinners-not-released-after-progress")
 }
+
+// ---- cases added with the engine changes of the build sessions
+
+// gc reads a plain variable in `return v, f()` after the call (go/ssa reads it
+// before); Iterator.Slice relies on it.
+func vtvCollect(n int) (out []int, _ int) {
+	add := func() int {
+		for i := 0; i < n; i++ {
+			out = append(out, i)
+		}
+		return n
+	}
+	return out, add()
+}
+
+func VTV_ReturnOrder() {
+	out, n := vtvCollect(3)
+	vf.Reach("returned")
+	vf.Assert(n == 3 && len(out) == 3, "return-operand-read-before-the-call")
+}
+
+// symbolic scalar map keys: equality with the keys present is solver-decided
+func VTV_SymbolicMapKeys() {
+	m := map[int]int{}
+	a, b := vf.Int("a"), vf.Int("b")
+	m[a] = 1
+	m[b] = 2
+	if a == b {
+		vf.Reach("same-key")
+		vf.Assert(len(m) == 1 && m[a] == 2, "symbolic-keys-equal")
+	} else {
+		vf.Reach("different-keys")
+		vf.Assert(len(m) == 2 && m[a] == 1 && m[b] == 2, "symbolic-keys-different")
+	}
+	delete(m, a)
+	_, ok := m[a]
+	vf.Assert(!ok, "deleted-symbolic-key-still-present")
+}
+
+// a full buffered channel is not sendable although a receiver is about to run
+func VTV_FullBufferedChannel() {
+	ch := make(chan int, 1)
+	ch <- 1
+	got := make([]int, 0, 2)
+	vf.Go(func() { ch <- 2 })
+	vf.Go(func() { got = append(got, <-ch); got = append(got, <-ch) })
+	vf.Quiesce()
+	vf.Reach("drained")
+	vf.Assert(len(got) == 2 && got[0] == 1 && got[1] == 2, "buffered-channel-order")
+}
+
+// a non-blocking send succeeds iff the receiver has parked already: both
+// outcomes must be reachable
+func VTV_NonBlockingSendVsLateReceiver() {
+	ch := make(chan int)
+	sent := false
+	got := 0
+	ctx, cancel := context.WithCancel(context.Background())
+	vf.Go(func() {
+		select {
+		case v := <-ch:
+			got = v
+		case <-ctx.Done():
+		}
+	})
+	vf.Go(func() {
+		select {
+		case ch <- 7:
+			sent = true
+		default:
+		}
+	})
+	vf.Quiesce()
+	if sent {
+		vf.Reach("receiver-was-parked")
+		vf.Assert(got == 7, "handed-value")
+	} else {
+		vf.Reach("receiver-was-late")
+		vf.Assert(got == 0, "nothing-handed")
+	}
+	cancel()
+	vf.Quiesce()
+}
+
+// Put(x) synchronizes before the Get that returns x
+func VTV_PoolHandOff() {
+	p := &sync.Pool{New: func() any { return new(int) }}
+	vf.Go(func() { v := p.Get().(*int); *v = 1; p.Put(v) })
+	vf.Go(func() { v := p.Get().(*int); *v = 2; p.Put(v) })
+	vf.Quiesce()
+	vf.Reach("pool-done")
+}
